@@ -747,6 +747,9 @@ impl<R: Reader> Dwarf<R> {
             .or_else(|| self.debug_info.lookup_offset_id(id))
             .or_else(|| self.debug_line.lookup_offset_id(id))
             .or_else(|| self.debug_line_str.lookup_offset_id(id))
+            .or_else(|| self.debug_macinfo.lookup_offset_id(id))
+            .or_else(|| self.debug_macro.lookup_offset_id(id))
+            .or_else(|| self.debug_names.lookup_offset_id(id))
             .or_else(|| self.debug_str.lookup_offset_id(id))
             .or_else(|| self.debug_str_offsets.lookup_offset_id(id))
             .or_else(|| self.debug_types.lookup_offset_id(id))
